@@ -70,6 +70,11 @@ struct Scn {
     end_ms: u64,
     /// Builder::tcp_capacity (None = default 64)
     tcp_cap: Option<usize>,
+    /// Builder::ephemeral_ports (None = default range): a tiny range makes a connector reuse
+    /// the address pair of an earlier connection
+    ephemeral: Option<(u16, u16)>,
+    /// the accepting side keeps a stream this long after it saw the peer's close
+    accept_linger_ms: u64,
 }
 
 #[derive(Clone, Debug)]
@@ -77,6 +82,8 @@ enum Ev {
     Bind { lt: usize, loopback: bool, ok: bool },
     Unbind { lt: usize },
     Accept { peer: String, local: String },
+    /// the accepting side dropped the stream it had accepted from `peer`
+    AcceptedDropped { peer: String },
     Nonce { peer: String, nonce: u64 },
     ConnCall { id: usize, host: usize },
     ConnOk { id: usize, local: String, peer: String },
@@ -126,6 +133,7 @@ async fn listener_program(log: Log<Ev>, s: Scn) -> turmoil::Result {
                     log.push(Ev::Accept { peer: peer.to_string(), local });
                     let log = log.clone();
                     let end = s.end_ms;
+                    let linger = s.accept_linger_ms;
                     tokio::task::spawn_local(async move {
                         let mut b = [0u8; 8];
                         let left = end.saturating_sub(turmoil::elapsed().as_millis() as u64);
@@ -136,7 +144,11 @@ async fn listener_program(log: Log<Ev>, s: Scn) -> turmoil::Result {
                         let left = end.saturating_sub(turmoil::elapsed().as_millis() as u64);
                         let mut sink = [0u8; 8];
                         let _ = tokio::time::timeout(Duration::from_millis(left), st.read(&mut sink)).await;
+                        if linger > 0 {
+                            tokio::time::sleep(Duration::from_millis(linger)).await;
+                        }
                         drop(st);
+                        log.push(Ev::AcceptedDropped { peer: peer.to_string() });
                     });
                 }
                 Ok(Err(_)) => {}
@@ -261,6 +273,28 @@ fn gen(seed: u64) -> Scn {
         conns.push(Conn { host: r.range(1, nhosts as u64 - 1) as usize, target: Target::Listener, at, timeout: None, hold: lat + 4 * tick_ms + 5 });
         lifetimes = vec![Lifetime { bind_at: 0, loopback_bind: false, accepts: vec![0, 0, 0], drop_at: at + 4 * lat + 40 }];
     }
+    // "port wrap" shape: a two- or three-port ephemeral range; one host connects, closes and
+    // connects again in quick succession while latencies reorder its FINs and SYNs, so a request
+    // can reuse the address pair of a stream the listener side still holds
+    let mut ephemeral = None;
+    let mut accept_linger_ms = 0;
+    if !flood && nhosts >= 2 && r.chance(0.08) {
+        flood = true; // no link faults in this shape either
+        let nports = r.range(2, 3) as u16;
+        ephemeral = Some((49152, 49152 + nports - 1));
+        (min_ms, max_ms) = r.pick_copy(&[(1u64, 1u64), (1, 20), (0, 12)]);
+        conns.clear();
+        let h = r.range(1, nhosts as u64 - 1) as usize;
+        let mut at = 3;
+        accept_linger_ms = r.pick_copy(&[0u64, 4, 25]);
+        for _ in 0..r.range(4, 9) {
+            // strictly one after the other: never more live streams than ports (documented panic)
+            let hold = r.range(0, 3);
+            conns.push(Conn { host: h, target: Target::Listener, at, timeout: None, hold });
+            at += 2 * max_ms + hold + 4 * tick_ms + 2 + r.range(0, 3);
+        }
+        lifetimes = vec![Lifetime { bind_at: 0, loopback_bind: false, accepts: vec![0; 12], drop_at: at + 4 * max_ms + 60 }];
+    }
     let horizon = horizon.max(lifetimes.last().map(|l| l.drop_at + 10).unwrap_or(0));
     let fault = if flood {
         Fault::None
@@ -287,6 +321,8 @@ fn gen(seed: u64) -> Scn {
         fault,
         end_ms: horizon + 40 + 2 * max_ms,
         tcp_cap,
+        ephemeral,
+        accept_linger_ms,
     }
 }
 
@@ -341,6 +377,9 @@ fn scenario(s: Scn) -> ScenarioOut {
             .simulation_duration(Duration::from_secs(100_000));
         if let Some(c) = s.tcp_cap {
             b.tcp_capacity(c);
+        }
+        if let Some((lo, hi)) = s.ephemeral {
+            b.ephemeral_ports(lo..=hi);
         }
         if s.random_order {
             b.enable_random_order();
@@ -459,6 +498,9 @@ fn scenario(s: Scn) -> ScenarioOut {
     if s.tcp_cap.is_some() {
         out.count("give_up_flood_scenarios", 1);
     }
+    if s.ephemeral.is_some() {
+        out.count("port_wrap_scenarios", 1);
+    }
     // merge
     let mut items: Vec<Item> = hev.iter().map(|(q, st, e)| Item::H(*q, *st, e)).collect();
     items.extend(trace.iter().filter(|t| t.protocol == "TCP SYN" || t.msg == "Bind" || t.msg == "Unbind").map(Item::T));
@@ -468,11 +510,15 @@ fn scenario(s: Scn) -> ScenarioOut {
     });
     let mut conns: Vec<CModel> = s.conns.iter().map(|_| CModel { src: None, state: CState::NotSent, call_step: 0, sent_step: 0, held: false, ret: None, cancel: None }).collect();
     let mut await_send: BTreeMap<String, usize> = BTreeMap::new(); // node name -> conn id whose Send comes next
+    // peer address -> intervals (accept seq, drop seq) during which the listener host holds a stream accepted from it
+    let mut held_pairs: BTreeMap<String, Vec<(u64, Option<u64>)>> = BTreeMap::new();
+    let mut queued_at: BTreeMap<usize, u64> = BTreeMap::new();
     let mut lo_fifo: VecDeque<usize> = VecDeque::new(); // same-host connects awaiting loopback delivery
     let mut bound: Option<bool> = None; // Some(loopback_bind)
     let mut queue: VecDeque<usize> = VecDeque::new();
     let mut accepts: Vec<(String, String, Option<usize>)> = vec![]; // (peer, local, conn id)
-    let mut nonces: BTreeMap<String, Vec<u64>> = BTreeMap::new();
+    let mut nonces: BTreeMap<usize, Vec<u64>> = BTreeMap::new(); // accept index -> nonces read from that stream
+    let mut skipped: Vec<(usize, u64, u64, String, bool)> = vec![]; // (conn id, accept seq, step, accepted peer, pair in use)
     let mut by_src: BTreeMap<String, usize> = BTreeMap::new(); // latest conn with this source address
     let mut link_held: std::collections::BTreeSet<usize> = Default::default(); // hosts whose link to h0 is held
     let min_steps = s.min_ms.div_ceil(s.tick_ms);
@@ -517,25 +563,24 @@ fn scenario(s: Scn) -> ScenarioOut {
                     bound = None;
                 }
                 Ev::Accept { peer, local } => {
-                    // pop the model queue up to this peer; skipped entries must have given up
+                    // pop the model queue up to this peer; skipped entries must have given up, or
+                    // reuse the address pair of a stream this host still holds (refused): whether a
+                    // skipped connector was refused is only known later, so skips are judged at the end
                     let mut found = None;
                     while let Some(id) = queue.pop_front() {
-                        if conns[id].src.as_deref() == Some(peer.as_str()) {
+                        let pair_in_use = conns[id].src.as_ref().map(|a| held_pairs.get(a).map(|iv| iv.iter().any(|(from, to)| *from < *seq && to.map(|t| t > queued_at.get(&id).copied().unwrap_or(0)).unwrap_or(true))).unwrap_or(false)).unwrap_or(false);
+                        if conns[id].src.as_deref() == Some(peer.as_str()) && !pair_in_use {
                             found = Some(id);
                             break;
                         }
-                        let gave_up = conns[id].cancel.map(|c| c.0 < *seq).unwrap_or(false);
-                        if !gave_up {
-                            out.violate(
-                                "accept-order",
-                                format!("C12|accept-order|{shape}"),
-                                format!("accept returned {peer} although connector #{id} ({:?}) arrived earlier and was still waiting (step {step})", conns[id].src),
-                                desc.clone(),
-                            );
-                        } else {
-                            out.count("cancelled_connectors_skipped_by_accept", 1);
+                        if conns[id].src.as_deref() == Some(peer.as_str()) && queue.iter().all(|q| conns[*q].src.as_deref() != Some(peer.as_str())) {
+                            // the only queued request from that address: it is the one accepted
+                            found = Some(id);
+                            break;
                         }
+                        skipped.push((id, *seq, *step, peer.clone(), pair_in_use));
                     }
+                    held_pairs.entry(peer.clone()).or_default().push((*seq, None));
                     match found {
                         Some(id) => {
                             conns[id].state = CState::Accepted { step: *step, seq: *seq };
@@ -548,7 +593,17 @@ fn scenario(s: Scn) -> ScenarioOut {
                     }
                     out.count("accepts", 1);
                 }
-                Ev::Nonce { peer, nonce } => nonces.entry(peer.clone()).or_default().push(*nonce),
+                Ev::AcceptedDropped { peer } => {
+                    if let Some(iv) = held_pairs.get_mut(peer).and_then(|v| v.iter_mut().rev().find(|x| x.1.is_none())) {
+                        iv.1 = Some(*seq);
+                    }
+                }
+                Ev::Nonce { peer, nonce } => {
+                    // the stream most recently accepted from that address
+                    if let Some(ai) = accepts.iter().rposition(|a| a.0 == *peer) {
+                        nonces.entry(ai).or_default().push(*nonce);
+                    }
+                }
                 Ev::Counts { host, public } => {
                     out.count("final_count_samples", 1);
                     if *public != 0 {
@@ -643,6 +698,7 @@ fn scenario(s: Scn) -> ScenarioOut {
                         if matches {
                             conns[id].state = CState::Queued;
                             queue.push_back(id);
+                            queued_at.insert(id, t.seq);
                         } else {
                             conns[id].state = CState::Unmatched { step: t.step };
                         }
@@ -650,6 +706,22 @@ fn scenario(s: Scn) -> ScenarioOut {
                     _ => {}
                 }
             }
+        }
+    }
+    for (id, seq, step, peer, pair_in_use) in &skipped {
+        let gave_up = conns[*id].cancel.map(|c| c.0 < *seq).unwrap_or(false);
+        let refused = matches!(&conns[*id].ret, Some((_, _, Err(k))) if k == "ConnectionRefused");
+        if gave_up {
+            out.count("cancelled_connectors_skipped_by_accept", 1);
+        } else if *pair_in_use && refused {
+            out.count("requests_refused_because_the_address_pair_is_still_in_use", 1);
+        } else {
+            out.violate(
+                "accept-order",
+                format!("C12|accept-order|{shape}"),
+                format!("accept returned {peer} although connector #{id} ({:?}) arrived earlier and was still waiting (step {step})", conns[*id].src),
+                desc.clone(),
+            );
         }
     }
     // per-connector verdicts
@@ -733,7 +805,8 @@ fn scenario(s: Scn) -> ScenarioOut {
                             desc.clone(),
                         );
                     }
-                    let got = nonces.get(&local).cloned().unwrap_or_default();
+                    let ai = accepts.iter().position(|a| a.2 == Some(id)).unwrap_or(usize::MAX);
+                    let got = nonces.get(&ai).cloned().unwrap_or_default();
                     // the nonce travels as a data segment: a partition may drop
                     // it and a hold may delay it past the end of the run
                     if !matches!(s.fault, Fault::None) {
@@ -813,6 +886,6 @@ fn fin() -> Finish<'static> {
             "prompt = within 2 steps of the deciding wire/API event".into(),
         ],
         min_distinct: 100,
-        required_counters: vec!["syns_in_flight_at_partition", "held_syns_at_partition", "connects_accepted", "refusals_observed", "cancelled_connectors_skipped_by_accept", "syns_dropped_by_partition", "nonces_matched", "final_count_samples", "give_up_flood_scenarios"],
+        required_counters: vec!["syns_in_flight_at_partition", "held_syns_at_partition", "connects_accepted", "refusals_observed", "cancelled_connectors_skipped_by_accept", "syns_dropped_by_partition", "nonces_matched", "final_count_samples", "give_up_flood_scenarios", "port_wrap_scenarios", "requests_refused_because_the_address_pair_is_still_in_use"],
     }
 }
